@@ -211,4 +211,118 @@ theorem send_effect {s s' : State} {frm to : Addr} {ids : List ScopeId}
       have := (sendCoins_holder hnd' h ho).1 hd
       rw [this] at ho; exact ho
 
+/-! ### the messages never create or widen an authorization -/
+
+/-- every grant of `s'` goes back to a grant of `s` with the same (grantee, granter, msg type) -/
+def GrantsSub (s s' : State) : Prop := ∀ g ∈ s'.grants, KeyIn s.grants g.grantee g.granter g.mt
+
+theorem grantsSub_of_eq {s s' : State} (h : s'.grants = s.grants) : GrantsSub s s' :=
+  fun g hg => ⟨g, h ▸ hg, rfl, rfl, rfl⟩
+
+theorem validateDeleteScope_wf {s : State} {id : ScopeId} {signers : List Addr} {a : Auth} {agents : List Addr}
+    (h : validateDeleteScope s id signers = .ok (a, agents)) : AuthWf s.grants a := by
+  unfold validateDeleteScope at h
+  split at h
+  · simp at h
+  · cases hf : findScope s id with
+    | none => rw [hf] at h; simp at h
+    | some e =>
+      rw [hf] at h; simp only at h
+      cases hp : validateAllRequiredSigned { grants := s.grants } signers .delete e.owners [] with
+      | error er => rw [hp] at h; simp at h
+      | ok r =>
+        obtain ⟨a1, used1⟩ := r
+        rw [hp] at h; simp only at h
+        cases hd : denomOwner s.ledger id with
+        | error er => rw [hd] at h; simp at h
+        | ok vo =>
+          rw [hd] at h; simp only at h
+          cases hv : validateScopeValueOwnersSigners s a1 vo.toList "" signers .delete with
+          | error er => rw [hv] at h; simp at h
+          | ok r2 =>
+            obtain ⟨a2, ag2, used2⟩ := r2
+            rw [hv] at h; simp only at h
+            cases hc : validateSmartContractSigners s (used2 ++ used1) .delete a2 true signers with
+            | error er => rw [hc] at h; simp at h
+            | ok a3 =>
+              rw [hc] at h; simp at h
+              obtain ⟨rfl, rfl⟩ := h
+              have hw1 := validateAllRequiredSigned_wf (authWf_init _) hp
+              exact validateSmartContractSigners_wf (validateScopeValueOwnersSigners_spec hw1 hv).1 hc
+
+theorem validateUpdateValueOwners_wf {s : State} {links : List Link} {proposed : Addr} {signers : List Addr}
+    {mt : MsgType} {a : Auth} {agents : List Addr}
+    (h : validateUpdateValueOwners s links proposed signers mt = .ok (a, agents)) : AuthWf s.grants a := by
+  unfold validateUpdateValueOwners at h
+  split at h
+  · simp at h
+  · cases hv : validateForScopes [] links with
+    | error e => rw [hv] at h; simp at h
+    | ok u =>
+      rw [hv] at h; simp only at h
+      split at h
+      · simp at h
+      · cases hs : validateScopeValueOwnersSigners s { grants := s.grants } (accAddrs links) proposed signers mt with
+        | error e => rw [hs] at h; simp at h
+        | ok r =>
+          obtain ⟨a1, ag1, u1⟩ := r
+          rw [hs] at h; simp at h
+          obtain ⟨rfl, rfl⟩ := h
+          exact (validateScopeValueOwnersSigners_spec (authWf_init _) hs).1
+
+theorem write_grants {s s' : State} {id : ScopeId} {owners : List Addr} {vo : Addr} {signers : List Addr}
+    (hinv : Inv s) (h : writeScope s id owners vo signers = .ok s') : GrantsSub s s' := by
+  unfold writeScope at h
+  cases hv : validateWriteScope s id owners vo signers with
+  | error e => rw [hv] at h; simp at h
+  | ok r =>
+    obtain ⟨a, agents⟩ := r
+    rw [hv] at h; simp only at h
+    have hw := (validateWriteScope_spec hinv hv).2.1
+    unfold setScope at h
+    by_cases hvo : vo ≠ ""
+    · rw [if_pos hvo] at h
+      cases hsv : setScopeValueOwner { s with grants := a.grants } agents id vo with
+      | error e => rw [hsv] at h; simp at h
+      | ok s2 =>
+        rw [hsv] at h; simp at h; subst h
+        have hfr := (setScopeValueOwner_spec (s := { s with grants := a.grants }) hinv.allHeld hsv).1
+        intro g hg
+        have : g ∈ a.grants := by have := hfr.grants; simp only [putScope] at hg; rw [this] at hg; exact hg
+        exact hw.1 g this
+    · rw [if_neg hvo] at h; simp at h; subst h
+      intro g hg
+      exact hw.1 g hg
+
+theorem delete_grants {s s' : State} {id : ScopeId} {signers : List Addr}
+    (hinv : Inv s) (h : deleteScope s id signers = .ok s') : GrantsSub s s' := by
+  unfold deleteScope at h
+  cases hv : validateDeleteScope s id signers with
+  | error e => rw [hv] at h; simp at h
+  | ok r =>
+    obtain ⟨a, agents⟩ := r
+    rw [hv] at h; simp only at h
+    have hw := validateDeleteScope_wf hv
+    unfold removeScope at h
+    split at h
+    · simp at h; subst h; intro g hg; exact hw.1 g hg
+    · cases hsv : setScopeValueOwner { s with grants := a.grants } agents id "" with
+      | error e => rw [hsv] at h; simp at h
+      | ok s2 =>
+        rw [hsv] at h; simp at h; subst h
+        have hfr := (setScopeValueOwner_spec (s := { s with grants := a.grants }) hinv.allHeld hsv).1
+        intro g hg
+        have : g ∈ a.grants := by have := hfr.grants; simp only [dropScope] at hg; rw [this] at hg; exact hg
+        exact hw.1 g this
+
+theorem moveValueOwners_grants {s s' : State} {links : List Link} {vo : Addr} {signers : List Addr}
+    {mt : MsgType} {a : Auth} {agents : List Addr}
+    (hv : validateUpdateValueOwners s links vo signers mt = .ok (a, agents))
+    (h : setScopeValueOwners { s with grants := a.grants } agents links vo = .ok s') : GrantsSub s s' := by
+  have hw := validateUpdateValueOwners_wf hv
+  have hfr := (setScopeValueOwners_spec h).1
+  intro g hg
+  have : g ∈ a.grants := by have := hfr.grants; rw [this] at hg; exact hg
+  exact hw.1 g this
+
 end PvProofs.VownerL
